@@ -68,6 +68,12 @@ func (h *histState) oraclePhase() {
 			h.log.Add("harness: reference rejects configuration %d: %s", rec.cfg, R.CfgErr)
 			continue
 		}
+		if R.Crash != "" {
+			// the call returned in this process, yet the same object linted alone ends a fresh process
+			h.violate(Violation{Property: "C01", Class: "process_crash", Op: rec.op, Site: R.Crash,
+				Detail: fmt.Sprintf("linting %s alone in a fresh process does not return: the Go runtime ends the process (%s)", o.spec.ID, R.Crash)})
+			continue
+		}
 		if R.Hung {
 			h.log.Add("harness: the reference process for op %d did not finish", rec.op)
 			continue
